@@ -12,6 +12,7 @@ import (
 	mocker "github.com/tencent/goom"
 	"github.com/tencent/goom/internal/bytecode/stub"
 	"github.com/tencent/goom/internal/iface"
+	"github.com/tencent/goom/internal/patch"
 	"github.com/tencent/goom/internal/unexports2"
 	"github.com/tencent/goom/verifharness/hxlib"
 	"github.com/tencent/goom/verifharness/zoo/fnzoo"
@@ -200,5 +201,40 @@ func c15Live(c *common, rng *hxlib.Rng, out *hxlib.Out) int {
 		rec["ok"], rec["why"] = bad == "", bad
 		out.Put(rec)
 	}
+	// ---- the trampoline return in its FAR form, executed: the sequence is placed in a fresh mapping (more than 2 GiB away
+	// from the text) with a code address of the text as destination
+	for i := 0; i < 3; i++ {
+		rec := map[string]interface{}{"kind": "live-stub", "mode": "far-origin-jump", "i": 200 + i}
+		to := reflect.ValueOf(c15LiveLeaf).Pointer()
+		sp, err := stub.Acquire(32)
+		bad := ""
+		if err != nil {
+			bad = "Acquire: " + err.Error()
+		} else {
+			code := patch.VerifJmpToOriginFunctionValue(sp.Addr, to)
+			rec["far"], rec["len"] = !patch.VerifRelative(sp.Addr, to), len(code)
+			buf := make([]byte, 32)
+			for j := range buf {
+				buf[j] = 0xCC
+			}
+			copy(buf, code)
+			if e := stub.Write(sp, buf); e != nil {
+				bad = "Write: " + e.Error()
+			} else {
+				out.Put(map[string]interface{}{"kind": "live-iface-about-to-call", "mode": "far-origin-jump", "i": 200 + i, "reserve_used": false})
+				out.Flush()
+				fn := unexports2.NewFuncWithCodePtr(reflect.TypeOf(c15LiveLeaf), sp.Addr).Interface().(func(int) int)
+				if o := outcome(func() int { return fn(i) }); o != interface{}(i+4242) {
+					bad = fmt.Sprintf("the call through the far trampoline return answers %v, the destination answers %d", o, i+4242)
+				}
+			}
+		}
+		rec["reserve_used"] = false
+		rec["ok"], rec["why"] = bad == "", bad
+		out.Put(rec)
+	}
 	return 0
 }
+
+//go:noinline
+func c15LiveLeaf(a int) int { return a + 4242 }
